@@ -247,14 +247,21 @@ func unmarshalData(data []byte) (map[string]any, error) {
 }
 
 // decode decodes the configuration map into a configDefinition.
-func decode(cm map[string]any) (*definition, error) {
-	c := new(definition)
+func decode(cm map[string]any) (c *definition, err error) {
+	// mapstructure panics (with ErrorUnused) on a non-string key in a map that
+	// is decoded into a struct; report it as an invalid definition instead.
+	defer func() {
+		if r := recover(); r != nil {
+			c, err = nil, fmt.Errorf("invalid definition: %v", r)
+		}
+	}()
+	c = new(definition)
 	md, _ := mapstructure.NewDecoder(&mapstructure.DecoderConfig{
 		ErrorUnused: true,
 		Result:      c,
 		TagName:     "",
 	})
-	err := md.Decode(cm)
+	err = md.Decode(cm)
 
 	return c, err
 }
